@@ -3,7 +3,8 @@
 From Coq Require Import List NArith ZArith Bool Arith Lia.
 From SK Require Import lib.Tok lib.LGraph lib.Mono.
 From SK Require model.C06_Model model.C11_Model.
-From SK Require Import model.C03_Model model.C05_Model proof.C05_Proof proof.C05_Glue proof.C05_Pipe proof.C05_Prep proof.C05_Comp proof.C05_Main proof.C05_Order.
+From SK Require Import model.C03_Model model.C05_Model proof.C05_Proof proof.C05_Glue proof.C05_Pipe proof.C05_Prep proof.C05_Comp proof.C05_Main proof.C05_Order proof.C05_Sub proof.C05_Set proof.C05_Result.
+From SK Require Import lib.C06_Spec proof.C06_Comp proof.C06_Main.
 Import ListNotations.
 
 (** sz: Suzuki-type rule [C:1][Br:2].[B:3][C:4]>>[C:1][C:4].[B:3][Br:2] applied backwards to CCC(C)C.OB(O)Br (the
@@ -122,4 +123,78 @@ Example matches_order_nonvacuous :
 Proof.
   split; [exact hx_same|]. split; [vm_compute; discriminate|]. split; [vm_compute; reflexivity|].
   apply matches_all_host_order. exact hx_same.
+Qed.
+
+(** ** component-aware matches are exhaustive matches: premises hold and the conclusion is about 4 matches *)
+Example comp_subset_nonvacuous :
+  gwf (host_c06 ds_host) /\ gwf (pat_c06 (p_pat ds_p)) /\
+  (comp_bound (C06_Model.monos_on (host_c06 ds_host) (pat_c06 (p_pat ds_p))) true (host_c06 ds_host) (pat_c06 (p_pat ds_p)) <= DEFAULT_THRESHOLD)%N /\
+  (C06_Model.lenN (C06_Model.monos_on (host_c06 ds_host) (pat_c06 (p_pat ds_p)) (node_ids (host_c06 ds_host)) (node_ids (pat_c06 (p_pat ds_p)))) <= DEFAULT_THRESHOLD)%N /\
+  length (matches 1%N ds_host (p_pat ds_p)) = 4%nat /\
+  (forall m, In m (matches 1%N ds_host (p_pat ds_p)) -> exists m', In m' (matches 0%N ds_host (p_pat ds_p)) /\ Permutation.Permutation m m').
+Proof.
+  assert (G1 : gwf (host_c06 ds_host)) by (apply gwfb_spec; vm_compute; reflexivity).
+  assert (G2 : gwf (pat_c06 (p_pat ds_p))) by (apply gwfb_spec; vm_compute; reflexivity).
+  assert (B1 : (comp_bound (C06_Model.monos_on (host_c06 ds_host) (pat_c06 (p_pat ds_p))) true (host_c06 ds_host) (pat_c06 (p_pat ds_p)) <= DEFAULT_THRESHOLD)%N)
+    by (apply N.leb_le; vm_compute; reflexivity).
+  assert (B2 : (C06_Model.lenN (C06_Model.monos_on (host_c06 ds_host) (pat_c06 (p_pat ds_p)) (node_ids (host_c06 ds_host)) (node_ids (pat_c06 (p_pat ds_p)))) <= DEFAULT_THRESHOLD)%N)
+    by (apply N.leb_le; vm_compute; reflexivity).
+  split; [exact G1|]. split; [exact G2|]. split; [exact B1|]. split; [exact B2|]. split; [vm_compute; reflexivity|].
+  exact (comp_subset_all ds_host (p_pat ds_p) G1 G2 B1 B2).
+Qed.
+
+(** ** the set of glued graphs under re-ordering (BrCCI written backwards) and under renumbering + re-ordering *)
+Lemma same_graph_refl {A B} (g : lgraph A B) : NoDup (node_ids g) -> same_graph g g.
+Proof. intros H. repeat split; auto. Qed.
+
+Lemma hx_rc_nodup : NoDup (node_ids (p_rc hx_p)).
+Proof. apply C03_Proof.nodupb_NoDup. vm_compute. reflexivity. Qed.
+Lemma hx_pat_nodup : NoDup (node_ids (p_pat hx_p)).
+Proof. apply C03_Proof.nodupb_NoDup. vm_compute. reflexivity. Qed.
+
+Example glued_set_invariant_nonvacuous :
+  side_ok hx_host hx_p /\ side_ok hx_host2 hx_p /\ same_graph hx_host hx_host2 /\
+  length (glued_of 0%N hx_host hx_p) = 1%nat /\
+  (forall T, In T (glued_of 0%N hx_host hx_p) -> exists T', In T' (glued_of 0%N hx_host2 hx_p) /\ obs_eq T T').
+Proof.
+  assert (S1 : side_ok hx_host hx_p) by (apply side_okb_ok; vm_compute; reflexivity).
+  assert (S2 : side_ok hx_host2 hx_p) by (apply side_okb_ok; vm_compute; reflexivity).
+  split; [exact S1|]. split; [exact S2|]. split; [exact hx_same|]. split; [vm_compute; reflexivity|].
+  exact (glued_set_invariant hx_host hx_host2 hx_p hx_p S1 S2 hx_same (same_graph_refl _ hx_rc_nodup) (same_graph_refl _ hx_pat_nodup)).
+Qed.
+
+(** renumbered by (sz_sg, sz_pi), then written backwards *)
+Definition hx_host_r : hostg := Eval vm_compute in relabel sz_pi hx_host.
+Definition hx_host_r2 : hostg :=
+  LG (rev (gnodes hx_host_r)) (map (fun e : N * N * Z => let '(a, b, o) := e in (b, a, o)) (rev (gedges hx_host_r))).
+
+Lemma hx_same_r : same_graph (relabel sz_pi hx_host) hx_host_r2.
+Proof.
+  change (relabel sz_pi hx_host) with hx_host_r.
+  split; [|split; [|split; [|split]]].
+  - intros u. unfold label; simpl.
+    repeat match goal with |- context [N.eqb u ?k] => destruct (N.eqb_spec u k); [subst u; simpl; try reflexivity|] end; reflexivity.
+  - intros u v. unfold LGraph.adj, hx_host_r2, hx_host_r. cbn [gedges rev map app find_edge].
+    repeat match goal with
+           | |- context [N.eqb ?k u] => destruct (N.eqb_spec k u); [subst u|]
+           | |- context [N.eqb ?k v] => destruct (N.eqb_spec k v); [subst v|]
+           end; cbn; try reflexivity; try congruence.
+  - intros u. simpl. tauto.
+  - simpl. repeat constructor; simpl; intuition discriminate.
+  - simpl. repeat constructor; simpl; intuition discriminate.
+Qed.
+
+Example glued_set_rewriting_nonvacuous :
+  gnodes hx_host_r2 <> gnodes (relabel sz_pi hx_host) /\
+  (forall T, In T (glued_of 0%N hx_host hx_p) ->
+     exists T'', In T'' (glued_of 0%N hx_host_r2 (relabel_prep sz_sg hx_p)) /\ obs_eq (relabel sz_pi T) T'') /\
+  (forall T'', In T'' (glued_of 0%N hx_host_r2 (relabel_prep sz_sg hx_p)) ->
+     exists T, In T (glued_of 0%N hx_host hx_p) /\ obs_eq (relabel sz_pi T) T'').
+Proof.
+  split; [vm_compute; discriminate|].
+  assert (S1 : side_ok (relabel sz_pi hx_host) (relabel_prep sz_sg hx_p)) by (apply side_okb_ok; vm_compute; reflexivity).
+  assert (S2 : side_ok hx_host_r2 (relabel_prep sz_sg hx_p)) by (apply side_okb_ok; vm_compute; reflexivity).
+  apply (glued_set_rewriting sz_sg sz_pi sz_sg_inj sz_pi_inj hx_host hx_host_r2 hx_p (relabel_prep sz_sg hx_p) S1 S2 hx_same_r).
+  - apply same_graph_refl. apply C03_Proof.nodupb_NoDup. vm_compute. reflexivity.
+  - apply same_graph_refl. apply C03_Proof.nodupb_NoDup. vm_compute. reflexivity.
 Qed.
